@@ -9,6 +9,7 @@ import hashlib
 import json
 import lzma
 import os
+import tempfile
 import re
 import shutil
 import types
@@ -428,6 +429,8 @@ class Replayer:
             dw.uuid = self.names
 
     def close(self):
+        if hasattr(self, "_cwd0"):
+            os.chdir(self._cwd0)
         if self._saved_uuid is not None:
             self._dw.uuid = self._saved_uuid
 
@@ -440,12 +443,16 @@ class Replayer:
     def open(self):
         from sedpack.io import Dataset
         if getattr(self, "open_relative", False):
-            cwd = os.getcwd()
+            # the handle is opened through a cwd-relative path and then used from another working directory. That
+            # other directory is the system scratch directory, not the harness' own: a library that resolved the
+            # path lazily would otherwise create its files inside /verif
+            if not hasattr(self, "_cwd0"):
+                self._cwd0 = os.getcwd()
             try:
                 os.chdir(self.root.parent)
                 self.ds = Dataset(Path(self.root.name))
             finally:
-                os.chdir(cwd)
+                os.chdir(tempfile.gettempdir())
         else:
             self.ds = Dataset(self.root)
 
